@@ -552,7 +552,7 @@ func repoCommit(dir string) string {
 
 func decisiveKind(k string) bool {
 	switch k {
-	case "map-order", "forbid-call", "immutable-store", "loop-complete", "shared-write":
+	case "map-order", "forbid-call", "immutable-store", "loop-complete", "loop-nobreak", "loop-noreturn", "shared-write":
 		return true
 	}
 	return false
